@@ -415,6 +415,10 @@ class Ctx(object):
                 print("VIOLATION property=%s replay=%s" % (self.prop, path))
                 print("   why: %s" % (info["why"][:300],))
             seen.add(path)
+        if self.violations:
+            with open(os.path.join(OUT, "replays", self.prop, "_all.txt"), "w") as fh:
+                for info, path in self.violations[:20000]:
+                    fh.write(info["why"].replace("\n", " ")[:600] + "\n")
         if len(self.violations) > 12:
             print("   ... %d violating cases in total" % len(self.violations))
         print("%s %s: states=%d transitions=%d impl_traces=%d evaluations=%d distinct=%d violations=%d known=%s wall=%.1fs"
